@@ -260,7 +260,8 @@ func pickIdx(cnt, salt uint64) []uint64 {
 }
 
 func pickRanges(cnt, salt uint64) [][2]uint64 {
-	rs := [][2]uint64{{0, cnt}, {0, 0}, {cnt, cnt}, {cnt, cnt + 1}, {cnt + 1, cnt + 1}, {cnt + 2, cnt}}
+	rs := [][2]uint64{{0, cnt}, {0, 0}, {cnt, cnt}, {cnt, cnt + 1}, {cnt + 1, cnt + 1}, {cnt + 2, cnt},
+		{0, 1<<32 + cnt/2}, {1 << 32, 1<<32 + cnt}, {1<<32 + cnt/2, cnt}, {0, ^uint64(0)}}
 	if cnt > 0 {
 		a, b := mix64(salt*3)%(cnt+1), mix64(salt*3+1)%(cnt+1)
 		rs = append(rs, [2]uint64{a, b}, [2]uint64{b, a}, [2]uint64{0, a}, [2]uint64{a, cnt}, [2]uint64{cnt / 2, cnt/2 + 1}, [2]uint64{1, 0})
